@@ -107,6 +107,10 @@ func runHist(ch *simrt.Chooser, opt Options) RunResult {
 			opNewDeep(h)
 			s.End()
 		}
+		if s.Draw("read-discipline", 3) == 0 {
+			h.sparse = 2 + s.Draw("sparse-every", 7)
+			res.Counters["probe:sparse-reads"]++
+		}
 		for i := 0; i < steps && !h.dead; i++ {
 			s.Begin("op")
 			x := s.Draw("op", total)
@@ -117,6 +121,10 @@ func runHist(ch *simrt.Chooser, opt Options) RunResult {
 				}
 			}
 			s.End()
+		}
+		if h.unchecked > 0 && !h.dead {
+			h.final = true
+			h.heapCheck()
 		}
 	})
 	res.Steps = h.step
